@@ -142,6 +142,10 @@ VF_PART(penta_L3) { enumRings(C, 3, 5); }
 VF_PART(hexa_L2) { enumRings(C, 2, 6); }
 VF_PART(hexa_L3) { if (C.thorough()) enumRings(C, 3, 6); }
 VF_PART(hepta_L2) { if (C.thorough()) enumRings(C, 2, 7); }
+VF_PART(hepta_L3) { if (C.thorough()) enumRings(C, 3, 7); }
+VF_PART(octa_L2) { if (C.thorough()) enumRings(C, 2, 8); }
+VF_PART(tri_L5) { enumRings(C, 5, 3); }
+VF_PART(quad_L4) { if (C.thorough()) enumRings(C, 4, 4); }
 
 // ---- large shapes with many horizontal / vertical edges and hundreds of vertices -----------------
 static std::vector<P> comb(int teeth, int h)
